@@ -112,6 +112,23 @@ func (e hostsafe) genSource(r *core.PRNG) ([]byte, string) {
 	case n < 15 && len(c.Trees) > 0:
 		t := core.Pick(r, c.Trees)
 		src = core.Pick(r, t).Data
+	case n < 16:
+		// valid, feature-rich programs of the other engines' generators
+		switch r.Intn(4) {
+		case 0:
+			w := GenLiveWorld(r.Fork())
+			src = []byte(w.Infra(0))
+			if r.Bool() {
+				f := core.Pick(r, w.EntFiles())
+				src = []byte(w.EntFile(f[0], f[1], r.Intn(w.Versions)))
+			}
+		case 1:
+			src = []byte(cpRender(crashpoint{}.genPlan(r.Fork())).Text)
+		case 2:
+			src = []byte(boundary{}.genPlan(r.Fork()).render())
+		default:
+			src = []byte(mapiter{}.genPlan(r.Fork()).render())
+		}
 	default:
 		src = []byte(GenProgram(r.Fork(), r.Intn(3)))
 	}
@@ -140,9 +157,18 @@ func (e hostsafe) genTree(r *core.PRNG) []core.DiskFile {
 		for _, f := range core.Pick(r, c.Trees) {
 			files = append(files, core.DiskFile{Path: f.Path, Data: append([]byte(nil), f.Data...)})
 		}
-	case n < 7:
-		w := GenWorld(r.Fork(), WorldOpts{MaxPkgs: 1 + r.Intn(5), Versions: 1, Decoys: true, Natives: "none"})
+	case n < 6:
+		w := GenWorld(r.Fork(), WorldOpts{MaxPkgs: 1 + r.Intn(5), Versions: 1, Decoys: true, Natives: core.Pick(r, []string{"none", "host"}), Cyclic: r.Chance(1, 6), Conflict: r.Chance(1, 8)})
 		files = w.Snapshot(0)
+	case n < 7:
+		w := GenLiveWorld(r.Fork())
+		v := r.Intn(w.Versions)
+		for pk := range w.Pkgs {
+			files = append(files, core.DiskFile{Path: w.InfraPath(pk), Data: []byte(w.Infra(pk))})
+		}
+		for _, f := range w.EntFiles() {
+			files = append(files, core.DiskFile{Path: w.EntFilePath(f[0], f[1]), Data: []byte(w.EntFile(f[0], f[1], v))})
+		}
 	default:
 		nf := 1 + r.Intn(4)
 		for i := 0; i < nf; i++ {
